@@ -354,3 +354,162 @@ def mon_c15(case):
             return step, f"callback invoked for {got} but the entries that left the cache are {want} (op {op[:4]})"
         prev = ents
     return None
+
+
+def mon_c07(case):
+    """SegmentedCache: the segmented-LRU policy clause by clause on the real segment lists"""
+    if case["kind"] != 1:
+        return None
+    pc, fc = case["cfg"][0], case["cfg"][1]
+    prob, prot = [], []
+    for step, (op, out, cb, acct, snap) in enumerate(case["lines"], 1):
+        if not op or op[0] in (98, 99) or out == [-1000]:
+            continue
+        p = parse_snap(1, snap)
+        if p is None:
+            return step, "unreadable snapshot"
+        _, (nprob, nprot), _, _ = p
+        c = op[0]
+        if c in (0, 1, 2):
+            k = op[1]
+            pd, fd = dict(prob), dict(prot)
+            isput = c == 0
+            if k in fd:
+                old = fd[k]
+                v1 = op[2] if isput else (op[3] if (c == 2 and op[2] != 0) else old)
+                want_prot = [(k, v1)] + [e for e in prot if e[0] != k]
+                if nprot != want_prot or nprob != prob:
+                    return step, (f"hit on protected entry {k} must only refresh it: protected {prot} -> {nprot} "
+                                  f"(expected {want_prot}), probationary {prob} -> {nprob}")
+                if out != [1, old]:
+                    return step, f"hit on protected entry {k} returned {out}, stored value {old}"
+            elif k in pd:
+                old = pd[k]
+                v1 = op[2] if isput else (op[3] if (c == 2 and op[2] != 0) else old)
+                rest = [e for e in prob if e[0] != k]
+                if len(prot) < fc:
+                    want_prot, want_prob = [(k, v1)] + prot, rest
+                else:
+                    want_prot, want_prob = [(k, v1)] + prot[:-1], [prot[-1]] + rest
+                if nprot != want_prot:
+                    return step, (f"hit on probationary entry {k} must promote it to the most-recent end of protected: "
+                                  f"protected {prot} -> {nprot}, expected {want_prot}")
+                if nprob != want_prob:
+                    return step, (f"promotion of {k}: probationary {prob} -> {nprob}, expected {want_prob} "
+                                  f"(protected's least-recent entry is demoted, never evicted)")
+                if out != [1, old]:
+                    return step, f"hit on probationary entry {k} returned {out}, stored value {old}"
+            elif isput:
+                v = op[2]
+                if nprot != prot:
+                    return step, f"put of new key {k} changed the protected segment {prot} -> {nprot}"
+                if len(prob) < pc:
+                    want_prob, want_out = [(k, v)] + prob, [0]
+                else:
+                    want_prob, want_out = [(k, v)] + prob[:-1], [2, prob[-1][0], prob[-1][1]]
+                if nprob != want_prob or out != want_out:
+                    return step, (f"new key {k} must enter probationary, evicting only its least-recent entry: "
+                                  f"probationary {prob} -> {nprob} (expected {want_prob}), returned {out} (expected {want_out})")
+            else:
+                if nprob != prob or nprot != prot or out != [0]:
+                    return step, f"miss on {k} changed the cache or returned {out}"
+        elif c == 30:
+            k, v = op[1], op[2]
+            if not nprot or nprot[0] != (k, v):
+                return step, f"put_protected({k}) did not place the key at the most-recent end of protected: {nprot}"
+            if any(e[0] == k for e in nprob):
+                return step, f"put_protected({k}) left the key in probationary as well: {nprob}"
+            if nprob != [e for e in prob if e[0] != k]:
+                return step, f"put_protected({k}) changed probationary {prob} -> {nprob}"
+        prob, prot = nprob, nprot
+    return None
+
+
+def _victim(prefer_recent, r, f):
+    """2Q: least-recent entry of the preferred queue, falling back to the non-empty one"""
+    if prefer_recent:
+        return ("r", r[-1]) if r else (("f", f[-1]) if f else None)
+    return ("f", f[-1]) if f else (("r", r[-1]) if r else None)
+
+
+def _push(cap, g, e):
+    return ([e] + g, None) if len(g) < cap else ([e] + g[:-1], g[-1] if g else None)
+
+
+def mon_c08(case):
+    """TwoQueueCache: the 2Q policy clause by clause on the real recent / frequent / ghost lists"""
+    if case["kind"] != 2:
+        return None
+    size, rs, es = case["cfg"][:3]
+    r, f, g = [], [], []
+    for step, (op, out, cb, acct, snap) in enumerate(case["lines"], 1):
+        if not op or op[0] in (98, 99) or out == [-1000]:
+            continue
+        p = parse_snap(2, snap)
+        if p is None:
+            return step, "unreadable snapshot"
+        hdr, (nr, nf, ng), _, _ = p
+        if hdr != [size, rs, es]:
+            return step, f"configuration changed: {hdr}"
+        c = op[0]
+        want = None
+        if c in (0, 1, 2):
+            k = op[1]
+            rd, fd, gd = dict(r), dict(f), dict(g)
+            isput = c == 0
+            if k in fd:
+                old = fd[k]
+                v1 = op[2] if isput else (op[3] if (c == 2 and op[2] != 0) else old)
+                want = (r, [(k, v1)] + [e for e in f if e[0] != k], g, [1, old], "an access to a frequent entry refreshes it")
+            elif k in rd:
+                old = rd[k]
+                v1 = op[2] if isput else (op[3] if (c == 2 and op[2] != 0) else old)
+                want = ([e for e in r if e[0] != k], [(k, v1)] + f, g, [1, old],
+                        "a second access moves a recent entry to the frequent queue")
+            elif not isput:
+                want = (r, f, g, [0], "a miss changes nothing")
+            elif k in gd:
+                old = gd[k]
+                v = op[2]
+                if len(r) + len(f) >= size:
+                    vi = _victim(len(r) > rs, r, f)
+                    if vi is None:
+                        return step, "full cache with both queues empty"
+                    src, ve = vi
+                    r1 = r[:-1] if src == "r" else r
+                    f1 = f[:-1] if src == "f" else f
+                    g1, dropped = _push(es, g, ve)
+                    g2 = [e for e in g1 if e[0] != k]
+                    if dropped is None or dropped[0] == k:
+                        res = [1, old]
+                    else:
+                        res = [3, dropped[0], dropped[1], old]
+                    want = (r1, [(k, v)] + f1, g2, res,
+                            f"ghost revival on a full cache: victim {ve} from {'recent' if src == 'r' else 'frequent'} "
+                            f"(recent {len(r)} entries, quota {rs}) becomes a ghost, the key goes to frequent")
+                else:
+                    want = (r, [(k, v)] + f, [e for e in g if e[0] != k], [1, old],
+                            "a put on a ghost key revives it directly into the frequent queue")
+            else:
+                v = op[2]
+                if len(r) + len(f) < size:
+                    want = ([(k, v)] + r, f, g, [0], "a key seen once lives in the recent queue")
+                else:
+                    vi = _victim(len(r) >= rs, r, f)
+                    if vi is None:
+                        return step, "full cache with both queues empty"
+                    src, ve = vi
+                    r1 = r[:-1] if src == "r" else r
+                    f1 = f[:-1] if src == "f" else f
+                    g1, dropped = _push(es, g, ve)
+                    res = [0] if dropped is None else [2, dropped[0], dropped[1]]
+                    want = ([(k, v)] + r1, f1, g1, res,
+                            f"new key on a full cache: victim {ve} from {'recent' if src == 'r' else 'frequent'} "
+                            f"(recent {len(r)} entries, quota {rs}) becomes a ghost")
+        if want is not None:
+            wr, wf, wg, wout, why = want
+            if (nr, nf, ng) != (wr, wf, wg) or out != wout:
+                return step, (f"{why}: expected recent {wr} frequent {wf} ghost {wg} result {wout}; "
+                              f"got recent {nr} frequent {nf} ghost {ng} result {out}")
+        r, f, g = nr, nf, ng
+    return None
